@@ -55,3 +55,4 @@ META = dict(
     technique="Lean 4 proof (loop invariants through fuelled recursion, induction on fuel and on the series) + bit-exact "
               "differential correspondence model vs real code + budget oracle",
 )
+READY = True
